@@ -421,6 +421,32 @@ def check_accessors(w, n, I, owner, invs, sro, ctx):
         raised = True
     if raised != bool(invs):
         mism(ctx, 'I%d.validateInvariants() raises' % n, bool(invs), raised)
+    # the same validation asked for from INSIDE an invariant of another
+    # interface, for the same object (an invariant that requires the object to
+    # be valid for something else): it must run and conclude the same
+    inner = []
+    seen_ob = []
+
+    def outer_inv(ob):
+        seen_ob.append(ob)
+        try:
+            I.validateInvariants(ob, inner)
+        except Invalid:
+            pass
+    Outer = InterfaceClass(
+        'Outer%d' % n, (Interface,),
+        {'__interface_tagged_values__': {'invariants': [outer_inv]}},
+        __module__=w.module + '.outer')
+    try:
+        Outer.validateInvariants(object(), [])
+    except Invalid:
+        pass
+    got = sorted(e.args[0] for e in inner if e.args[0] != 'shared')
+    nshared = sum(1 for e in inner if e.args[0] == 'shared')
+    if len(seen_ob) != 1 or got != sorted(invs) or nshared != len(invs):
+        mism(ctx, 'I%d.validateInvariants(ob, errors) called from inside an '
+             'invariant of another interface for the same object' % n,
+             [sorted(invs), len(invs)], [got, nshared])
 
 
 def mro_guard(case):
